@@ -25,7 +25,7 @@ NW = 16
 
 
 def jobs(tier, seed):
-    rounds = 1 if tier == 'quick' else 6
+    rounds = 2 if tier == 'quick' else 8     # even rounds: records right after the handshake; odd rounds: scenario 1..3
     return [Job('f%d' % i, 'h_tls02', ['--seed', seed, '--worker', i, '--nworkers', NW, '--pairs', 75, '--rounds', rounds],
                 libs=['-lcrypto'], timeout=900 if tier == 'quick' else 7200) for i in range(NW)]
 
